@@ -71,6 +71,21 @@ Definition new_with (fs : list (conf -> conf)) : conf :=
 
 Definition apply_opts (os : list opt) : conf := new_with (map denote os).
 
+
+(* ---- declarative reading of an option list (specification side: used by the
+   theorems and by the boolean property of the correspondence; independent of
+   fold_left / denote) *)
+Definition picks {A : Type} (sel : opt -> option A) (os : list opt) : list A :=
+  flat_map (fun o => match sel o with Some a => [a] | None => [] end) os.
+Definition last_of {A : Type} (sel : opt -> option A) (zero : A) (os : list opt) : A :=
+  last (picks sel os) zero.
+Definition sel_base (o : opt) := match o with OBaseURL s => Some s | _ => None end.
+Definition sel_timeout (o : opt) := match o with OTimeout d => Some d | _ => None end.
+Definition sel_logging (o : opt) := match o with OLogging b => Some b | _ => None end.
+Definition sel_headers (o : opt) := match o with OHeaders h => Some h | _ => None end.
+Definition uses (os : list opt) : list M :=
+  flat_map (fun o => match o with OUse m => [m] | _ => [] end) os.
+
 (* ------------------------------------------------------------------ *)
 (* the middleware chain                                                *)
 
@@ -104,6 +119,17 @@ Fixpoint build_loop (mws : list mw) (k : nat) (t : rt) : rt :=
 Definition build (mws : list mw) (logging : bool) (base : rt) : rt :=
   let t := build_loop mws (List.length mws) base in
   if logging then log_mw t else t.
+
+
+(* ---- specification side: the properly nested trace of a chain of tagging
+   middlewares, and the order in which wrappers are entered *)
+Definition nested_trace (logging : bool) (tags : list nat) : rt :=
+  (if logging then [ELogIn] else []) ++ map EIn tags ++ [EBase] ++ rev (map EOut tags)
+  ++ (if logging then [ELogOut] else []).
+(* the order in which the wrappers (and finally the base transport) are entered *)
+Definition is_entry (e : event) : bool :=
+  match e with EIn _ | ELogIn | EBase => true | EOut _ | ELogOut => false end.
+Definition entries (t : rt) : rt := filter is_entry t.
 
 Definition build_conf (interp : M -> mw) (r : conf) (base : rt) : rt :=
   build (map interp (c_mws r)) (c_logging r) base.
@@ -187,6 +213,26 @@ Fixpoint run (r : registry) (ops : list op) : registry * list outcome :=
   end.
 
 Definition state_after (ops : list op) : registry := fst (run [] ops).
+
+(* declarative reading of a history prefix *)
+Fixpoint first_ctor (pre : list op) (t : nat) : option ctor :=
+  match pre with
+  | [] => None
+  | Register t' c :: pre' => if Nat.eqb t' t then Some c else first_ctor pre' t
+  | NewRest _ _ :: pre' => first_ctor pre' t
+  end.
+
+Definition outcome_spec (pre : list op) (o : op) : outcome :=
+  match o with
+  | Register t c =>
+      match first_ctor pre t with Some _ => PanicDup t | None => Registered end
+  | NewRest t os =>
+      match first_ctor pre t with
+      | None => PanicNotReg t
+      | Some c => Built (c (apply_opts os))
+      end
+  end.
+
 
 End Registry.
 End Conf.
